@@ -251,6 +251,8 @@ pub trait NonceSource {
     fn stage(&mut self, t: &Transcript);
     /// nonce `name` (alpha_k, dL_j_k, dR_j_k, r, s, d_k, eta_k); `seeded` = Some((label, j, k)) for the ones the documented derivation takes from the seed
     fn draw(&mut self, name: &str, seeded: Option<(&str, Option<usize>, usize)>) -> Scalar;
+    /// the fully folded witness scalars (a, b) the final responses are built from (r1 = r + a e, s1 = s + b e); default: not interested
+    fn folded(&mut self, _a: Scalar, _b: Scalar) {}
 }
 
 /// the caller's RNG directly (interoperability tests: any nonces give an acceptable proof)
@@ -463,6 +465,7 @@ pub fn reference_prove_with(
         b = b_new;
         round += 1;
     }
+    src.folded(a[0], b[0]);
     let r = src.draw("r", None);
     let s = src.draw("s", None);
     let d: Vec<Scalar> = (0..x).map(|k| src.draw(&format!("d_{}", k), Some(("d", None, k)))).collect();
@@ -494,6 +497,54 @@ pub fn reference_prove_with(
         out.extend_from_slice(r_.compress().as_bytes());
     }
     Some(out)
+}
+
+/// records the folded witness scalars of a reference run whose seed nonces are the documented ones (the RNG-drawn ones do not matter here)
+struct FoldCapture {
+    seed: Option<Scalar>,
+    folded: Option<(Scalar, Scalar)>,
+}
+impl NonceSource for FoldCapture {
+    fn stage(&mut self, _t: &Transcript) {}
+    fn draw(&mut self, name: &str, seeded: Option<(&str, Option<usize>, usize)>) -> Scalar {
+        match (self.seed, seeded) {
+            (Some(sd), Some((label, j, k))) => ref_nonce(&sd, label, j, Some(k)),
+            _ => {
+                let mut h = [0u8; 64];
+                for (i, b) in name.bytes().enumerate() {
+                    h[i % 64] ^= b.wrapping_add(i as u8);
+                }
+                h[63] = 1;
+                Scalar::from_bytes_mod_order_wide(&h)
+            },
+        }
+    }
+    fn folded(&mut self, a: Scalar, b: Scalar) {
+        self.folded = Some((a, b));
+    }
+}
+
+/// the two final masking scalars of a SEEDED proof of any size, opened by the witness holder: with a seed, alpha / dL / dR are the documented
+/// Blake2b nonces, so A, every L and R — hence every challenge up to the last round and the folded witness (a, b) — can be recomputed by the
+/// independent prover; the final challenge e is read off the library's own A1, B; then r = r1 - a e, s = s1 - b e. None when the library's
+/// A / L / R are not the documented ones (nothing can be opened that way).
+pub fn open_final_masks_seeded(transcript: &Transcript, st: &RangeStatement<RistrettoPoint>, values: &[u64], blindings: &[Vec<Scalar>], proof_bytes: &[u8]) -> Option<(Scalar, Scalar)> {
+    st.seed_nonce?;
+    let x = st.generators.extension_degree() as usize;
+    let elems: Vec<[u8; 32]> = proof_bytes[1..].chunks(32).map(|c| c.try_into().unwrap()).collect();
+    let mut cap = FoldCapture { seed: st.seed_nonce, folded: None };
+    let reference = reference_prove_with(transcript, st, values, blindings, &mut cap)?;
+    let relems: Vec<[u8; 32]> = reference[1..].chunks(32).map(|c| c.try_into().unwrap()).collect();
+    if relems.len() != elems.len() || relems[x] != elems[x] || relems[x + 5..] != elems[x + 5..] {
+        return None;
+    }
+    let (a, b) = cap.folded?;
+    let sg = stages(transcript, st, proof_bytes)?;
+    let mut t = sg.states.last().unwrap().clone();
+    let e = challenge(&mut t, b"e")?;
+    let r1 = Option::<Scalar>::from(Scalar::from_canonical_bytes(elems[x + 3]))?;
+    let s1 = Option::<Scalar>::from(Scalar::from_canonical_bytes(elems[x + 4]))?;
+    Some((r1 - a * e, s1 - b * e))
 }
 
 // ------------------------------------------------------------------------------------------------
